@@ -368,6 +368,59 @@ def lazy_field():
     return ob
 
 
+T_LAZY_TAG = '''
+is_big = amount > 9001
+
+[G]
+match: contains("@P1")
+category: Shopping
+tags: st, {(r.label for r in orders if r.amount == amount)}, {[r.item for r in orders if r.nope == 1]}, {next(r.item for r in orders if r.amount > 9003)}
+
+[Skipped]
+match: (is_big := amount > 9002) and field.nope == "x"
+category: Never
+tags: never
+
+[Big]
+match: is_big
+tags: large
+'''
+
+
+def lazy_tag(via='engine'):
+    """Dynamic tags written as generator / list / next() expressions over supplemental rows for which an item cannot be evaluated, and
+    a rule that binds a name with := before it fails: the classification completes, the failing tag or rule is simply not there
+    (static tags stay, the global variable of the same name keeps its own value for the later rule)."""
+    def ob(desc: str, amount: int, s1: str, n1: int, n2: int, r1: int) -> bool:
+        """
+        pre: len(desc) <= 2 and len(s1) <= 1 and amount < 1000000 and r1 < 1000000
+        post: _
+        """
+        from datetime import date
+        from harness import tmpl
+        from tally import merchant_utils
+        reset_tally_caches()
+        eng = tmpl.load(T_LAZY_TAG, {'@P1': s1, 9001: n1, 9002: n2, 9003: 1000000})
+        rows = {'orders': [{'amount': r1, 'item': 'book'}, {'amount': amount, 'item': 'pen'}, {'amount': amount}]}     # rows without `label` / `item`
+        hit = s1.upper() in desc.upper()
+        if via == 'engine':
+            res = eng.match({'description': desc, 'amount': amount, 'field': {'k': 'v'}, 'source': 'S', 'date': date(2024, 5, 6)}, data_sources=rows)
+            cat, tags = res.category, set(res.tags)
+        else:
+            use_engine(eng)
+            real = merchant_utils.extract_merchant_name
+            merchant_utils.extract_merchant_name = lambda d: 'FALLBACK'
+            try:
+                m, c, sc, info = merchant_utils.normalize_merchant(desc, [], amount=amount, txn_date=date(2024, 5, 6), field={'k': 'v'}, data_sources=rows)
+            finally:
+                merchant_utils.extract_merchant_name = real
+            cat, tags = ('' if c == 'Unknown' else c), set((info or {}).get('tags', []))
+        tags = {t for t in tags if not t.startswith('<')}       # what an unconsumed generator is rendered as is not this property's subject
+        exp_tags = ({'st'} if hit else set()) | ({'large'} if amount > n1 else set())
+        return post(cat == ('Shopping' if hit else '') and tags == exp_tags)
+    return ob
+
+
 def obligations(tier, seed):
     q = tier == 'quick'
     obs = []
@@ -382,6 +435,9 @@ def obligations(tier, seed):
                           bounds='two rules with regular expressions that do not compile; three classifications on one engine; descriptions <= 2, constants <= 1 chars'))
     obs.append(Obligation(id='sequence-same-engine', factory='sequence_same_engine', timeout=to, group='item independence',
                           bounds='two transactions on one engine; field value <= 1 char each; the rule has no value when no supplemental row matches'))
+    for via in ['engine', 'normalize']:
+        obs.append(Obligation(id=f'lazy-tag-{via}', factory='lazy_tag', params={'via': via}, timeout=to, group='failing variable / let / field / tag',
+                              bounds=f'3 rules through {via}: generator / list / next() dynamic tags over 3 supplemental rows lacking the columns they read, a := rule that fails after binding; description <= 2, pattern <= 1, integer amount / thresholds / row amount symbolic'))
     for pos in POSITIONS:
         obs.append(Obligation(id=f'position-{pos}', factory='position', params={'pos': pos}, timeout=to, group='failing variable / let / field / tag',
                               bounds='description <= 2, operands <= 1 char / ints'))
